@@ -27,6 +27,11 @@ def parseNats (s : String) : List Nat :=
 def parseK (s : String) : Option (Option Nat) :=
   if s = "all" then some none else s.toNat?.map some
 
+def parseTake (s : String) : Option Take :=
+  if s = "all" then some .all
+  else if s.startsWith "nth:" then (s.drop 4).toNat?.map .nth
+  else s.toNat?.map .first
+
 def parsePanic (toks : List String) : Option Nat :=
   match toks with
   | [p] => if p.startsWith "panic=" then (p.drop 6).toNat? else none
@@ -36,9 +41,9 @@ def parseOp (toks : List String) : Option Op :=
   match toks with
   | ["next"] => some .next
   | ["nextv"] => some .nextv
-  | ["chunk", n, k] => do some (.chunk (← n.toNat?) (← parseK k))
+  | ["chunk", n, k] => do some (.chunk (← n.toNat?) (← parseTake k))
   | ["bufnew", n] => do some (.bufnew (← n.toNat?))
-  | ["bufnext", k] => do some (.bufnext (← parseK k))
+  | ["bufnext", k] => do some (.bufnext (← parseTake k))
   | ["bufdrop"] => some .bufdrop
   | "foreach" :: n :: rest => do some (.foreach (← n.toNat?) (parsePanic rest))
   | "enumforeach" :: n :: rest => do some (.enumforeach (← n.toNat?) (parsePanic rest))
